@@ -42,7 +42,7 @@ PROPS = {
     "C07": {"level": "model_checking", "bounds_text": BT, "G": G(["rt", "from"], "^Harness_(RT|From)_", "^C07/", programs="oneof|empty|mini|sorted|docs|deep-n"),
             "K": [K("^Harness_K10_", "^C07/")]},
     "C06": {"level": "model_checking", "bounds_text": dict(BT, list_length="<= 2 in both tiers (C06); the thorough tier adds programs and witnesses"),
-            "G": G(["corrupt", "custom"], "^Harness_(Corrupt|Custom)", "^C06[+/]", programs={"quick": "mini|embed$|scal-S1|time|cast|flags|mapnest|empty|custom", "thorough": "mini|embed$|scal-S1|time|cast|flags|names|multi|mapnest|deep-[lmn]|empty|custom"}, gosym=["-prune=false", "-solver", "z3-new"],
+            "G": G(["corrupt", "custom"], "^Harness_(Corrupt|Custom)", "^C06[+/]", programs={"quick": "mini|embed$|embed-t|scal-S1|time|cast|flags|mapnest|empty|custom", "thorough": "mini|embed$|embed-t|embed-x|scal-S1|time|cast|flags|names|multi|mapnest|deep-[lmn]|empty|custom"}, gosym=["-prune=false", "-solver", "z3-new"],
                    # measured: with lists of 3 the corrupt family needs 20-30 min per program (P-nest, P-oneof: more than an hour);
                    # the thorough tier of C06 widens the set of programs and cross-checks every verdict, at the quick tier's sizes
                    bounds={"quick": {"KL": 2, "KM": 2}, "thorough": {"KL": 2, "KM": 2}},
